@@ -422,8 +422,10 @@ pub mod fastq {
     // ---- ghost views of the reader -------------------------------------------------------------
     spec fn f(&self) -> Seq<u8> { self.buf_reader.file() }
     spec fn base(&self) -> int { self.buf_reader.base() as int }
-    /// buffer is full or holds the end of the input
-    spec fn filled(&self) -> bool { self.b().len() == self.buf_reader.cap() || self.buf_reader.at_eof() }
+    /// no source error so far (after one, only safety is claimed: a failed refill leaves a short buffer)
+    spec fn clean(&self) -> bool { self.buf_reader.errs().len() == 0 }
+    /// buffer is full or holds the end of the input (vacuous once the source has failed)
+    spec fn filled(&self) -> bool { !self.clean() || self.b().len() == self.buf_reader.cap() || self.buf_reader.at_eof() }
     /// basics every operation needs
     spec fn wf0(&self) -> bool {
         &&& self.buf_reader.wf()
@@ -626,12 +628,13 @@ pub mod fastq {
     spec fn wf(&self) -> bool {
         &&& self.wf0()
         &&& self.position.byte == self.gpos()
+        &&& self.buf_pos.pos.0 <= self.b().len() + 1
         &&& match self.state {
                 State::New => self.base() == 0 && self.buf_pos.pos.0 == 0 && self.incomplete_pos is None,
                 State::Parsing => self.filled() && self.incomplete_pos is None && self.buf_pos.valid(self.b()) && self.buf_pos.pos.1 < self.b().len(),
                 State::Positioned => self.filled() && self.buf_pos.pos.0 <= self.b().len()
                     && (self.incomplete_pos matches Some(k) ==> stuck(self.b(), self.buf_pos, rp(k))),
-                State::Finished => true,
+                State::Finished => self.state != State::New ==> self.filled(),
             }
         &&& (self.state != State::Finished ==> self.coords())
     }
@@ -669,21 +672,23 @@ pub mod fastq {
             old(self).coords(),
         ensures
             [C03,C05,C06|fastq.resume.frame] final(self).wf0() && final(self).f() == old(self).f() && final(self).gpos() == old(self).gpos()
-                && final(self).position == old(self).position,
+                && final(self).position == old(self).position && final(self).filled() && final(self).buf_pos.pos.0 <= final(self).b().len(),
             [C02,C03|fastq.resume.found] r matches Ok(true) ==> final(self).filled() && final(self).buf_pos.valid(final(self).b())
-                && group_complete(final(self).f(), final(self).gpos()) && vok(final(self).f(), final(self).gpos())
-                && final(self).base() + final(self).buf_pos.pos.1 == c4(final(self).f(), final(self).gpos())
                 && final(self).buf_reader.errs() == old(self).buf_reader.errs()
                 && ((final(self).state == old(self).state && final(self).incomplete_pos is None && final(self).buf_pos.pos.1 < final(self).b().len())
-                    || (final(self).state == State::Finished && c4(final(self).f(), final(self).gpos()) == final(self).f().len()
-                        && final(self).base() + final(self).b().len() == final(self).f().len())),
-            [C02,C03|fastq.resume.end] r matches Ok(false) ==> end_ok(final(self).f(), final(self).gpos()) && final(self).state == State::Finished
-                && final(self).buf_reader.errs() == old(self).buf_reader.errs(),
+                    || final(self).state == State::Finished)
+                && (final(self).clean() ==> group_complete(final(self).f(), final(self).gpos()) && vok(final(self).f(), final(self).gpos())
+                    && final(self).base() + final(self).buf_pos.pos.1 == c4(final(self).f(), final(self).gpos())
+                    && (final(self).state == State::Finished && final(self).state != old(self).state ==> c4(final(self).f(), final(self).gpos()) == final(self).f().len())
+                    && (final(self).buf_pos.pos.1 < final(self).b().len() || final(self).base() + final(self).b().len() == final(self).f().len())),
+            [C02,C03|fastq.resume.end] r matches Ok(false) ==> final(self).state == State::Finished
+                && final(self).buf_reader.errs() == old(self).buf_reader.errs()
+                && (final(self).clean() ==> end_ok(final(self).f(), final(self).gpos())),
             [C02,C14,C17,C09|fastq.resume.err] r matches Err(e) ==> match e {
                 Error::Io(x) => final(self).buf_reader.errs() == old(self).buf_reader.errs().push(x),
                 Error::BufferLimit => final(self).buf_reader.errs() == old(self).buf_reader.errs(),
                 _ => final(self).buf_reader.errs() == old(self).buf_reader.errs()
-                     && fmt_err(e, final(self).f(), final(self).gpos(), final(self).position.line as int),
+                     && (final(self).clean() ==> fmt_err(e, final(self).f(), final(self).gpos(), final(self).position.line as int)),
             },
             [C06,C02|fastq.resume.err_terminal] r is Err ==> final(self).state == State::Finished,
             [C09|fastq.resume.capacity_monotone] final(self).buf_reader.cap() >= old(self).buf_reader.cap(),
@@ -709,7 +714,7 @@ pub mod fastq {
                     // the buffer is not full although it was filled: it holds the end of the input
                     let (ff, a, bb, s) = (self.f(), self.base(), self.b(), self.buf_pos.pos.0 as int);
                     lemma_chain_bounds(bb, s);
-                    if bb.len() > 0 {
+                    if bb.len() > 0 && self.clean() {
                         if rp(incomplete_pos) == 3 { lemma_group_lift(ff, a, bb, s); } else { lemma_tail_lift(ff, a, bb, s); }
                     }
                 }
@@ -735,19 +740,20 @@ pub mod fastq {
         ensures
             [C06|fastq.next.wf] final(self).wf() && final(self).f() == old(self).f(),
             [C02,C06|fastq.next.end] r is None ==> final(self).buf_reader.errs() == old(self).buf_reader.errs() && final(self).state == State::Finished
-                && (old(self).state == State::Finished || old(self).poisoned() || end_ok(old(self).f(), old(self).cursor())),
+                && (old(self).state == State::Finished || old(self).poisoned() || !old(self).clean() || end_ok(old(self).f(), old(self).cursor())),
             [C02,C03,C06,C12|fastq.next.record] r matches Some(Ok(rec)) ==> final(self).buf_reader.errs() == old(self).buf_reader.errs()
                 && old(self).state != State::Finished
                 && rec.buffer@ == final(self).b() && *rec.buf_pos == final(self).buf_pos && rec.buf_pos.valid(rec.buffer@)
-                && (!old(self).poisoned() ==> ({
+                && (final(self).state == State::Parsing || final(self).state == State::Finished)
+                && (!old(self).poisoned() && old(self).clean() ==> ({
                     let (ff, p) = (old(self).f(), old(self).cursor());
                     &&& group_complete(ff, p) && vok(ff, p)
                     &&& rec.head_v() == g_head(ff, p) && rec.seq_v() == g_seq(ff, p) && rec.qual_v() == g_qual(ff, p)
                     &&& final(self).gpos() == p
                     &&& final(self).base() + final(self).buf_pos.pos.1 == c4(ff, p)
-                    &&& (final(self).state == State::Parsing || (final(self).state == State::Finished && c4(ff, p) == ff.len()))
+                    &&& (final(self).state == State::Finished ==> c4(ff, p) == ff.len())
                 })),
-            [C05,C03|fastq.next.position] r matches Some(Ok(rec)) && !old(self).poisoned() ==>
+            [C05,C03|fastq.next.position] r matches Some(Ok(rec)) && !old(self).poisoned() && old(self).clean() ==>
                 final(self).position.byte == old(self).cursor() && final(self).position.line == true_line(old(self).f(), old(self).cursor()),
             [C02,C14,C17,C06|fastq.next.error] r matches Some(Err(e)) ==>
                 (final(self).state == State::Finished || (old(self).state == State::New && final(self).state == State::New && e is Io))
@@ -755,12 +761,13 @@ pub mod fastq {
                     Error::Io(x) => final(self).buf_reader.errs() == old(self).buf_reader.errs().push(x),
                     Error::BufferLimit => final(self).buf_reader.errs() == old(self).buf_reader.errs(),
                     _ => final(self).buf_reader.errs() == old(self).buf_reader.errs() && old(self).state != State::Finished
-                         && (!old(self).poisoned() ==> fmt_err(e, old(self).f(), old(self).cursor(), true_line(old(self).f(), old(self).cursor()))),
+                         && (!old(self).poisoned() && old(self).clean() ==> fmt_err(e, old(self).f(), old(self).cursor(), true_line(old(self).f(), old(self).cursor()))),
                 },
 //@body_start
         proof {
             lemma_count_lf_mono(self.f(), 0, self.position.byte as int);
             if self.state == State::Parsing {
+                lemma_chain_bounds(self.b(), self.buf_pos.pos.0 as int);
                 lemma_group_lift(self.f(), self.base(), self.b(), self.buf_pos.pos.0 as int);
                 lemma_group_lines(self.f(), self.gpos());
                 lemma_count_lf_mono(self.f(), 0, self.base() + self.buf_pos.pos.1 + 1);
@@ -777,7 +784,7 @@ pub mod fastq {
             let (ff, a, bb, s) = (self.f(), self.base(), self.b(), self.buf_pos.pos.0 as int);
             lemma_chain_bounds(bb, s);
             lemma_nl_bounds(bb, s);
-            lemma_group_lift(ff, a, bb, s);
+            if self.clean() { lemma_group_lift(ff, a, bb, s); }
         }
 //@end
 
